@@ -127,3 +127,10 @@ def _tol_late(params, inputs, observed):
                 late = True
         i = j + 1
     return late and [int(v) for v in observed['sp_tol']] == _ref_switched_tol(x, tol)
+
+
+@predicate('trapezoid_measure_and_nonzero_first_sample')
+def _trap_nonzero_start(params, inputs, observed):
+    """trapezoid-based cumulative measure (Arias, CAV) and a record whose first sample is not zero: the prepended
+    zero creates a new non-empty trapezoid panel, so the cumulative curve is not a pure shift."""
+    return params.get('kind') in ('arias', 'cav') and params.get('k', 0) > 0 and float(inputs['a[0]']) != 0.0
